@@ -73,6 +73,23 @@
    recently ignored / accepted, so that such histories are witnessed (AgainAccepted, AgainOutdated) in the
    model and counted in the recorded executions; no action reads it.
 
+   Scale (what the exhaustive alphabets of SvsMC cannot reach; recorded executions - SvsTrace - carry it):
+     * the size of the group / of a vector: NodeOrder <- Nodes20 .. Nodes101 (Grp(k): "self", "n1" .. "n<k-1>";
+       one more node "a" for the loop-back peer). Nothing in the actions or properties depends on the number of
+       nodes (AllReadings enumerates the readings of the nodes that ARE named twice, not functions over all nodes).
+       With the executor's node names a vector of ManyEs entries is longer than 252 octets on the wire (its
+       Length number then takes three octets), one of a few entries is not (witnesses ManyEntries,
+       ManyEntriesOutdated; the executor counts the octets)
+     * the magnitude of sequence numbers. TLC's integers have 32 bits, sequence numbers are NonNegativeIntegers
+       of up to 8 octets. The model uses sequence numbers only through =, <, max and "+ n" on the own one, so a
+       history is a behaviour iff its image under a strictly monotone map that fixes 0 and commutes with the
+       "+ n" that occur is one. Recorded executions are judged in such an image, SCALED CLASSES: a number below
+       HiSeq stands for itself, HiSeq + k stands for B + k, where B (>= HiSeq; per execution, cfg.hi, not read
+       here) is a number of the executor's choice on either side of 2^31, 2^32, 2^53, 2^63 or just below 2^64; a
+       number the instance shows that is in neither class (k beyond HiSpan) is recorded as BadSeq and equals no
+       model value. The own sequence number starts in the high class and stays there; peers' entries are in both
+       (witnesses HighSeqPublish, HighSeqMerged, HighSeqSupEmit)
+
    Named deviations (known findings; Dev = {} in stage A, all of them in B / C so that a path or trace
    that needs one is reported and the rest of it is still checked):
      "aggLocal"  aggregate() merges the received vector with local_sv instead of agg_sv
@@ -133,6 +150,21 @@ Nodes5 == <<"self", "n1", "n2", "n3", "n4">>
 \* a peer of the instance under test (loop-back check): it knows that instance as node "a"
 Nodes4 == <<"self", "n1", "n2", "a">>
 Nodes6 == <<"self", "n1", "n2", "n3", "n4", "a">>
+\* larger groups (scale: recorded executions only), and each of them with the loop-back peer's name for the instance
+Grp(k) == [i \in 1..k |-> IF i = 1 THEN "self" ELSE "n" \o ToString(i - 1)]
+Nodes20 == Grp(20)
+Nodes21 == Grp(20) \o <<"a">>
+Nodes24 == Grp(24)
+Nodes25 == Grp(24) \o <<"a">>
+Nodes40 == Grp(40)
+Nodes41 == Grp(40) \o <<"a">>
+Nodes100 == Grp(100)
+Nodes101 == Grp(100) \o <<"a">>
+\* scaled classes of sequence numbers (see the header)
+HiSeq == 1048576
+HiSpan == 1024
+BadSeq == -2
+ManyEs == 16
 
 Nodes == { NodeOrder[i] : i \in 1..Len(NodeOrder) }
 Self == NodeOrder[1]
@@ -186,10 +218,13 @@ Vec(p) == [n \in Nodes |->
 Max1(x) == IF x > 1 THEN x ELSE 1
 Rank(es, i) == Cardinality({ j \in 1..i : es[j].id = es[i].id })
 LastReading(es) == [n \in Nodes |-> Max1(Cardinality(Occ(es, n)))]
+\* (enumerated over the nodes that are named more than once: [Nodes -> 1..k] has k^|Nodes| members)
 AllReadings(es) ==
-  LET k == Max1(CHOOSE x \in { Cardinality(Occ(es, n)) : n \in Nodes } :
+  LET dn == { n \in Nodes : Cardinality(Occ(es, n)) > 1 }
+      k == Max1(CHOOSE x \in { Cardinality(Occ(es, n)) : n \in Nodes } :
                   \A y \in { Cardinality(Occ(es, n)) : n \in Nodes } : x >= y)
-  IN  { d \in [Nodes -> 1..k] : \A n \in Nodes : d[n] <= Max1(Cardinality(Occ(es, n))) }
+  IN  { [n \in Nodes |-> IF n \in dn THEN f[n] ELSE 1] :
+          f \in { g \in [dn -> 1..k] : \A n \in dn : g[n] <= Cardinality(Occ(es, n)) } }
 Resolve(es, d) ==
   LET ns == SelectSeq(NodeOrder, LAMBDA n : Occ(es, n) # {})
   IN  [x \in 1..Len(ns) |-> es[CHOOSE i \in Occ(es, ns[x]) : Rank(es, i) = d[ns[x]]]]
@@ -261,7 +296,7 @@ LastRecvOn(s, a, pn, p, acc, r, es) ==
       older == OlderEntries(es, s.local)
       oc == Overclaims(p, s.selfSeq)
       v == IF acc /\ dup THEN Merge(Zero, es) ELSE Vec(p)
-  IN  [a |-> a, n |-> r, pn |-> pn, acc |-> acc, dec |-> Decodable(p),
+  IN  [a |-> a, n |-> r, pn |-> pn, acc |-> acc, dec |-> Decodable(p), ne |-> Len(p.es),
        dmg |-> (dup \/ Lenient(p) \/ \E i \in 1..Len(p.es) : ~Good(p.es[i])), len |-> Lenient(p),
        oc |-> oc, v |-> v, sup |-> (state = "Suppress"),
        old |-> older # {}, old0 |-> 0 \in older,
@@ -272,7 +307,7 @@ LastRecvOn(s, a, pn, p, acc, r, es) ==
        och |-> (dup /\ oc /\ LET lst == Resolve(ges, LastReading(ges))
                              IN  ~(\E i \in 1..Len(lst) : lst[i].id = Self /\ lst[i].seq > s.selfSeq)),
        again |-> (Remember /\ p = mem.rej), againA |-> (Remember /\ p = mem.acc)]
-LastOther(a, n) == [a |-> a, n |-> n, pn |-> 0, acc |-> FALSE, dec |-> FALSE, dmg |-> FALSE, len |-> FALSE, oc |-> FALSE, v |-> Zero,
+LastOther(a, n) == [a |-> a, n |-> n, pn |-> 0, acc |-> FALSE, dec |-> FALSE, ne |-> 0, dmg |-> FALSE, len |-> FALSE, oc |-> FALSE, v |-> Zero,
                     sup |-> (state = "Suppress"), old |-> FALSE, old0 |-> FALSE,
                     dup |-> FALSE, rdg |-> TRUE, notmax |-> FALSE, och |-> FALSE, again |-> FALSE, againA |-> FALSE]
 
@@ -609,7 +644,8 @@ WitnessNames == <<"SupEmit", "SupNoEmit", "OverclaimWouldRaise", "Incomparable",
                   "OutdatedZero", "CallbackPublish", "CallbackPublishInSup", "CallbackPublishTwice",
                   "DupAccepted", "DupOverclaimHidden", "DupNotMax", "AgainAccepted", "AgainOutdated",
                   "ActPublishThenRecv", "PTRNotOutdated", "PTROutdated", "PTRRaises", "PTRCallbackPublish",
-                  "PTRInSup", "PTRCaughtUp", "PTRStillOverclaims", "PTRIgnored", "LenientAccepted", "LenientRejected">>
+                  "PTRInSup", "PTRCaughtUp", "PTRStillOverclaims", "PTRIgnored", "LenientAccepted", "LenientRejected",
+                  "ManyEntries", "ManyEntriesOutdated", "HighSeqPublish", "HighSeqMerged", "HighSeqSupEmit">>
 WBase == 9000
 ASSUME \A i \in 1..Len(WitnessNames) : TLCSet(WBase + i, 0)
 Seen(i, cond) == (cond /\ TLCGet(WBase + i) = 0) => (PrintT(<<"WITNESS", WitnessNames[i]>>) /\ TLCSet(WBase + i, 1))
@@ -660,5 +696,14 @@ Witnesses ==
       /\ Seen(35, IsPTR /\ ~last'.dec)
       \* (alphabets with kind "svl") a vector in a non-canonical encoding is read and raises an entry / is ignored
       /\ Seen(36, IsRecv /\ last'.len /\ last'.acc /\ missed' = 1)
-      /\ Seen(37, IsRecv /\ last'.len /\ last'.dec /\ ~last'.oc /\ ~last'.acc) ]_vars
+      /\ Seen(37, IsRecv /\ last'.len /\ last'.dec /\ ~last'.oc /\ ~last'.acc)
+      \* (scale: recorded executions of large groups / with sequence numbers in the high class only)
+      \* a vector of many entries is merged and raises an entry / is outdated and starts a suppression period
+      /\ Seen(38, IsRecv /\ last'.ne >= ManyEs /\ last'.acc /\ missed' = 1)
+      /\ Seen(39, IsRecv /\ last'.ne >= ManyEs /\ last'.acc /\ last'.old /\ state = "Steady" /\ state' = "Suppress")
+      \* a publication beyond HiSeq is announced; a peer's entry beyond HiSeq is merged; a suppression period
+      \* ends with a sync Interest that carries an entry beyond HiSeq
+      /\ Seen(40, last'.a = "Publish" /\ selfSeq >= HiSeq /\ out' # <<>>)
+      /\ Seen(41, IsRecv /\ last'.acc /\ missed' = 1 /\ \E n \in Others : local'[n] > local[n] /\ local'[n] >= HiSeq)
+      /\ Seen(42, last'.a = "TimerFire" /\ state = "Suppress" /\ out' # <<>> /\ \E n \in Nodes : local[n] >= HiSeq) ]_vars
 =============================================================================
